@@ -62,20 +62,21 @@ def _alarm(signum, frame):
 
 @contextlib.contextmanager
 def watchdog(seconds):
-    """Interrupt the assembler after `seconds` of CPU time of this process (ITIMER_PROF): on a loaded machine a wall-clock
-    limit would turn a starved but terminating run into a false "hang".  A wall-clock backstop of 30x guards against a run
-    that blocks without using the CPU."""
-    old_prof = signal.signal(signal.SIGPROF, _alarm)
+    """Interrupt the assembler after `seconds` of USER CPU time of this process (ITIMER_VIRTUAL).  A wall-clock limit, and even a
+    limit on user+system time, turns a starved but terminating run into a false "hang" on a loaded or swapping machine (measured:
+    with six thorough checks running side by side, trivial programs were "hanging"); a genuinely non-terminating evaluation
+    burns user time.  A wall-clock backstop of 60x guards against a run that blocks without using the CPU."""
+    old_vt = signal.signal(signal.SIGVTALRM, _alarm)
     old_alrm = signal.signal(signal.SIGALRM, _alarm)
     _fired[0] = False
-    signal.setitimer(signal.ITIMER_PROF, seconds)
-    signal.setitimer(signal.ITIMER_REAL, seconds * 30)
+    signal.setitimer(signal.ITIMER_VIRTUAL, seconds)
+    signal.setitimer(signal.ITIMER_REAL, seconds * 60)
     try:
         yield
     finally:
-        signal.setitimer(signal.ITIMER_PROF, 0)
+        signal.setitimer(signal.ITIMER_VIRTUAL, 0)
         signal.setitimer(signal.ITIMER_REAL, 0)
-        signal.signal(signal.SIGPROF, old_prof)
+        signal.signal(signal.SIGVTALRM, old_vt)
         signal.signal(signal.SIGALRM, old_alrm)
 
 
@@ -260,7 +261,7 @@ def run_cli(args, cwd, stdin=None, timeout=120.0, hashseed="0", extra_env=None):
 def _init_worker():
     import resource
     try:
-        resource.setrlimit(resource.RLIMIT_AS, (6 << 30, 6 << 30))
+        resource.setrlimit(resource.RLIMIT_AS, (24 << 30, 24 << 30))
     except Exception:
         pass
     sys.setrecursionlimit(1000)
